@@ -25,6 +25,8 @@ CLAIMED = {
          'contract-based deductive verification (Verus) with loop invariants on the two clone loops', '7 C13'),
  'C14': ('proof', 'Verus contracts on every conversion in entity.rs for all 2^32 keys and all generations (bit-vector lemmas for key packing), PartialEq specs, injectivity of the 64-bit word fed to the hasher.',
          'contract-based deductive verification (Verus) + bit_vector lemmas', '7 C14'),
+ 'C15': ('proof', 'advance_attribute_id (real body, syn types stubbed) implements exactly the enum-discriminant rule rule_next_id and rejects an id iff it is already assigned or would count past 255; lemma_rule_fold: folding that step over ANY sequence of items yields pairwise distinct ids obeying the rule, or the first error. Partial claim: the loop of DataWorld::new, the emission of the constants and "fails to compile" are not covered (see level_note).',
+         'contract-based deductive verification (Verus) of the id-assignment function + fold lemma', '7 C15'),
  'C17': ('proof', 'events configuration: force_create pushes exactly the returned handle to created, force_destroy exactly the removed handle to destroyed, clear_events empties both and changes nothing else, every other &mut method has both logs in its frame, clone copies them.',
          'contract-based deductive verification (Verus) under the events feature', '7 C17'),
  'C19': ('proof', 'The whole obligation set is re-extracted and re-verified under all 8 feature x profile configurations (quick: N=1; thorough: N in {1,2,3,16,17,32}); wrapping_version changes only the next() contract while every C03/C04 obligation still discharges unconditionally.',
@@ -35,7 +37,6 @@ NOT_APPLICABLE = {
  'C05': 'not yet under contract in this revision (binding functions of the macros crate); see DESIGN.md 7 C05',
  'C07': 'not yet under contract in this revision (instantiated ecs_iter_destroy! template); see DESIGN.md 7 C07',
  'C11': "RefCell's dynamic borrow flag x nested generated programs is not expressible as a contract on any gecs function (Verus models only the functional value of borrow/borrow_mut); DESIGN.md 7 C11",
- 'C15': 'not yet under contract in this revision (advance_attribute_id); see DESIGN.md 7 C15',
  'C16': 'relates two compilations (rustc cfg evaluation of a generated macro chain): no function contract can state it; DESIGN.md 7 C16',
  'C18': 'compile-time acceptance/rejection, auto traits and token content of expansions are rustc judgments, not pre/postconditions; DESIGN.md 7 C18',
 }
